@@ -4,13 +4,17 @@ package main
 
 import (
 	"fmt"
+	"go/token"
 	"go/types"
+	"strings"
 
 	"golang.org/x/tools/go/ssa"
 )
 
 func init() {
 	register(&PropertyCheck{ID: "C06", Level: "proof", Run: checkC06, Canaries: []Canary{
+		{Name: "extra-byte-read-after-the-length", Rule: "R6.6", Where: "ReadPacket on", Edits: []Edit{{"packet.go", "\tm, err := f.remainingLen.ReadFrom(r)\n\treturn n + m, err", "\tm, err := f.remainingLen.ReadFrom(r)\n\tif err == nil && f.remainingLen > 2 {\n\t\tvar pad bits\n\t\tpad.ReadFrom(r)\n\t}\n\treturn n + m, err"}}},
+		{Name: "size-refusal-between-header-and-body-stage", Rule: "R6.4", Where: "ReadPacket#between-stages", Edits: []Edit{{"packet.go", "\tif _, err := fh.ReadFrom(r); err != nil {\n\t\treturn nil, fmt.Errorf(\"ReadPacket: %w\", err)\n\t}\n", "\tn, err := fh.ReadFrom(r)\n\tif err != nil {\n\t\treturn nil, fmt.Errorf(\"ReadPacket: %w\", err)\n\t}\n\tif n > 4 {\n\t\treturn nil, fmt.Errorf(\"ReadPacket: packet too large\")\n\t}\n"}}},
 		{Name: "body-plus-one", Rule: "R6.2", Where: "ReadRemaining", Edits: []Edit{{"packet.go", "make([]byte, int(f.remainingLen))", "make([]byte, int(f.remainingLen)+1)"}}},
 		{Name: "body-masked", Rule: "R6.2", Where: "ReadRemaining", Edits: []Edit{{"packet.go", "make([]byte, int(f.remainingLen))", "make([]byte, int(f.remainingLen&0xffff))"}}},
 		{Name: "body-size-truncated-to-16-bits", Rule: "R6.2", Where: "ReadRemaining", Edits: []Edit{{"packet.go", "make([]byte, int(f.remainingLen))", "make([]byte, int(uint16(f.remainingLen)))"}}},
@@ -154,6 +158,7 @@ func checkC06(p *Prog, c *Check) {
 	c.Rule("R6.2", "header reads use 1-byte buffers; the body buffer's length is, without arithmetic, the value the streaming length reader stored, and nothing else writes that cell")
 	c.Rule("R6.3", "the length reader reads exactly one byte per iteration and every successful loop exit is decided by the byte read in that iteration")
 	c.Rule("R6.4", "in the function holding the body read every exit lies behind the completed body read, except exits taken on `length == 0`, which perform no read; reads happen in a fixed dominance order, each at most once outside the length loop")
+	c.Rule("R6.6", "ReadPacket, evaluated abstractly on specification-derived frames of every packet type (valid ones and ones whose content ends early inside the announced length), takes exactly 1 + size of the remaining-length field + remaining length bytes from the stream, whether it returns the packet or rejects it")
 	c.Rule("R6.5", "decoding reads no package-level state that any function writes (see C13 R13.2): the result depends on the frame's bytes only")
 	c.Explanation = "Reader uses on the ReadPacket call tree are enumerated (R6.1), each read's buffer size is resolved (R6.2: constant 1 for header bytes; for the body a conversion chain of the cell written only by the streaming length reader, the same object being passed to header and body stage by their common caller), the length loop is checked to consume one byte per iteration with a data-dependent successful exit (R6.3), and the body stage's exits are checked by dominance against the body read (R6.4). Hence exactly 1 + k + remaining-length bytes are requested, on success and on content rejection alike."
 	c.Trusted = []string{"go/types + go/ssa (x/tools v0.29.0) faithful IR", "io.ReadFull reads at most len(buf) bytes and exactly len(buf) when err == nil"}
@@ -256,6 +261,7 @@ func checkC06(p *Prog, c *Check) {
 	for _, s := range body {
 		checkBodySite(p, c, s.u, onPath, rp)
 	}
+	checkFrameConsumption(p, c)
 	c.OK("R6.5", "package state", "-", "decided by C13 R13.2 / C14 R14.2 (no function writes package-level or field-held shared storage); re-checked there on every run")
 }
 
@@ -331,6 +337,77 @@ func checkLengthLoop(p *Prog, c *Check, u ReaderUse, lp *Loop) {
 	if okAll {
 		c.OK("R6.3", cons, pos, "one byte per iteration; every successful exit tests the byte read in that iteration")
 	}
+}
+
+// checkFrameConsumption (R6.6): ReadPacket, evaluated on abstract frames, takes exactly the frame from the stream —
+// when it returns the packet and when it rejects the content.
+func checkFrameConsumption(p *Prog, c *Check) {
+	base := map[string]sv{}
+	specPairMem(base)
+	codeOf := map[string]int64{}
+	for k, n := range specPacketTypes {
+		codeOf[n] = k
+	}
+	n := 0
+	for _, tn := range packetTypeNames() {
+		if p.Method(tn, "UnmarshalBinary") == nil {
+			continue
+		}
+		cons := "ReadPacket on " + tn + " frames"
+		bad, unk := "", ""
+		frames := p.specFrames(tn)
+		if len(frames) > 3 {
+			frames = frames[:3]
+		}
+		nt := 0
+		for fi := range frames {
+			f := &frames[fi]
+			header := sv{k: 'i', i: codeOf[tn] | specReservedBits[tn]}
+			if tn == "Publish" {
+				var q int64
+				if k := strings.Index(f.name, "QoS "); k >= 0 {
+					fmt.Sscanf(f.name[k+4:], "%d", &q)
+				}
+				header.i |= q << 1
+			}
+			total := f.total()
+			variants := []struct {
+				name string
+				toks []wireToken
+				ok   bool
+			}{{"valid", f.toks, true}}
+			if len(f.toks) >= 2 {
+				// content-malformed: the same frame size with an item missing at the end (the decoder runs into the end)
+				cut := f.toks[:len(f.toks)-1]
+				variants = append(variants, struct {
+					name string
+					toks []wireToken
+					ok   bool
+				}{"content cut short inside the frame", cut, false})
+			}
+			for _, v := range variants {
+				r := p.decoderReplay(tn, header, v.toks, total, base)
+				n++
+				nt++
+				where := fmt.Sprintf("frame \"%s\" (%s, %d bytes): ", f.name, v.name, r.Frame)
+				switch {
+				case r.Why != "":
+					unk = where + "cannot evaluate ReadPacket: " + r.Why
+				case r.Read != r.Frame:
+					bad = where + fmt.Sprintf("ReadPacket takes %d byte(s) from the stream: what follows the frame is consumed, or part of the frame is left for the next call", r.Read)
+				}
+			}
+		}
+		switch {
+		case unk != "":
+			c.Unk("R6.6", cons, "-", unk)
+		case bad != "":
+			c.Bad("R6.6", cons, "-", bad)
+		default:
+			c.OK("R6.6", cons, "-", fmt.Sprintf("exactly the frame is taken from the stream on %d abstract frames (accepted and rejected)", nt))
+		}
+	}
+	c.Measured["frames_evaluated_for_consumption"] = n
 }
 
 func checkBodySite(p *Prog, c *Check, u ReaderUse, onPath map[*ssa.Function]bool, rp *ssa.Function) {
@@ -520,6 +597,48 @@ func checkBodySite(p *Prog, c *Check, u ReaderUse, onPath map[*ssa.Function]bool
 						if clean {
 							sameObj = true
 							why = "caller " + qname(cf) + " passes the same fresh header object to both stages, header stage first"
+							// R6.4 in this caller: once the header stage has succeeded, every way out leads through the
+							// body stage — an exit in between (decided by anything but the header stage's own failure)
+							// leaves the frame's body in the stream
+							for _, rb := range cf.Blocks {
+								ret, isRet := terminator(rb).(*ssa.Return)
+								if !isRet || bCall.Block().Dominates(rb) {
+									continue
+								}
+								onHdrErr := false
+								for _, ib := range cf.Blocks {
+									iff, ok := terminator(ib).(*ssa.If)
+									if !ok {
+										continue
+									}
+									bo, ok := iff.Cond.(*ssa.BinOp)
+									if !ok || (bo.Op != token.NEQ && bo.Op != token.EQL) {
+										continue
+									}
+									var x ssa.Value
+									if isNilConst(bo.Y) {
+										x = bo.X
+									} else if isNilConst(bo.X) {
+										x = bo.Y
+									}
+									ex, ok := x.(*ssa.Extract)
+									if !ok || ex.Tuple != ssa.Value(hCall) {
+										if cl, isCall := x.(*ssa.Call); !isCall || cl != hCall {
+											continue
+										}
+									}
+									side := 0
+									if bo.Op == token.EQL {
+										side = 1
+									}
+									if edgeDominates(ib, ib.Succs[side], rb) {
+										onHdrErr = true
+									}
+								}
+								if !onHdrErr {
+									c.Bad("R6.4", qname(cf)+"#between-stages", posOf(p, ret), "an exit after the header stage that neither follows its failure nor leads through the body stage: the frame's body is left in the stream and the next call reads it as a header")
+								}
+							}
 						} else {
 							why = "the header object is touched between the two stages in " + qname(cf)
 						}
